@@ -217,6 +217,8 @@ class Tr:
         cv = self.const(node, env)
         if isinstance(cv, bool):
             return ("true" if cv else "false"), BOOL
+        if src in self.spec.get("expr_params", {}):
+            return env[self.spec["expr_params"][src]]
         if isinstance(node, ast.Constant):
             v = node.value
             if isinstance(v, bool):
@@ -392,6 +394,8 @@ class Tr:
             return f"(if {self.truthy(c, tc)} then {self.coerce(a, ta, t)} else {self.coerce(b, tb, t)})", t
         if isinstance(node, ast.Call) and src in self.spec.get("call_params", {}):
             return env[self.spec["call_params"][src]]
+        if src in self.spec.get("expr_params", {}):
+            return env[self.spec["expr_params"][src]]
         if isinstance(node, ast.Call):
             return self.call(node, env)
         raise TranslationError(f"expression {src}")
@@ -404,7 +408,7 @@ class Tr:
         if tb == NONE:
             return ta if isinstance(ta, tuple) and ta[0] == "opt" else opt(ta)
         if is_num(ta) and is_num(tb):
-            return RAT
+            return NRAT if NRAT in (ta, tb) else RAT
         raise TranslationError(f"branches of different types {ta!r} / {tb!r}")
 
     def fresh(self, name):
@@ -462,6 +466,10 @@ class Tr:
                     args.append(self.expr(a, env))
                 except TranslationError:
                     args.append(("«untranslatable argument»", "untranslatable"))   # only an error if it is used
+        if fname == "np.nan_to_num" and len(node.args) == 1 and [k.arg for k in node.keywords] == ["nan"] \
+                and isinstance(node.keywords[0].value, ast.Constant) and node.keywords[0].value.value == 0:
+            e, t = self.expr(node.args[0], env)
+            return (f"(({e}).getD 0)", RAT) if t == NRAT else (e, t)
         if fname in ("np.asanyarray", "np.asarray", "list", "tuple") and len(args) == 1 and not node.keywords:
             return args[0]          # elementwise reading / tuple-as-list
         if fname == "np.array" and len(args) == 1 and [k.arg for k in node.keywords] in ([], ["dtype"]):
@@ -509,9 +517,15 @@ class Tr:
                 if pn not in env:
                     raise TranslationError(f"inlined call {fname} needs {pn}")
                 actual.append(env[pn][0])
+            if inl.get("drop_args"):
+                args = args[:len(args) - inl["drop_args"]]
             actual += [self.coerce(a, ta, want) for (a, ta), want in zip(args, inl.get("args", []))]
             if len(args) != len(inl.get("args", [])):
                 raise TranslationError(f"inlined call {fname}: wrong number of arguments")
+            for pn in inl.get("implicit_after", []):
+                if pn not in env:
+                    raise TranslationError(f"inlined call {fname} needs {pn}")
+                actual.append(env[pn][0])
             return f"({inl['lean']} {' '.join(actual)})" if actual else inl["lean"], inl["returns"]
         if node.keywords:
             raise TranslationError(f"keyword arguments in {ast.unparse(node)}")
@@ -565,6 +579,13 @@ class Tr:
             if t != INT:
                 raise TranslationError(f"astype on a non-integral value: {ast.unparse(node)}")
             return e, INT
+        if isinstance(node.func, ast.Attribute) and node.func.attr == "astype" and len(node.args) == 1 and not node.keywords \
+                and ast.unparse(node.args[0]) in self.spec.get("float_dtypes", []):
+            # `.astype(<the data's floating dtype>)`: the value itself (rounding to a narrower float is not modelled)
+            e, t = self.expr(node.func.value, env)
+            if t != RAT:
+                raise TranslationError(f"astype(float dtype) on {t!r}")
+            return e, RAT
         if fname in ("np.where", "da.where") and len(args) == 3 and args[0][1] == BOOL:
             t = self.join_branch(args[1][1], args[2][1])
             return f"(if {args[0][0]} then {self.coerce(args[1][0], args[1][1], t)} else {self.coerce(args[2][0], args[2][1], t)})", t
@@ -573,7 +594,17 @@ class Tr:
             fmx, fmn = ("pyMaxI", "pyMinI") if t == INT else ("pyMaxQ", "pyMinQ")
             v, lo, hi = (self.coerce(a, ta, t) for a, ta in args)
             return f"({fmn} ({fmx} {v} {lo}) {hi})", t
-        if fname in ("np.round",) and len(args) == 1:
+        if fname == "np.modf" and len(args) == 1 and args[0][1] == RAT:
+            e = args[0][0]
+            return f"(({e} - ((pyTrunc {e} : Int) : Rat)), (pyTrunc {e}))", tup(RAT, INT)     # (fractional part, integral part)
+        if isinstance(node.func, ast.Attribute) and node.func.attr == "clip" and len(node.args) == 2 and not node.keywords:
+            v, tv = self.expr(node.func.value, env)
+            if is_num(tv) and tv != NRAT:
+                lo, hi = args[0], args[1]
+                t = self.join_num(self.join_num(tv, lo[1]), hi[1])
+                fmx, fmn = ("pyMaxI", "pyMinI") if t == INT else ("pyMaxQ", "pyMinQ")
+                return f"({fmn} ({fmx} {self.coerce(v, tv, t)} {self.coerce(lo[0], lo[1], t)}) {self.coerce(hi[0], hi[1], t)})", t
+        if fname in ("np.round", "np.rint") and len(args) == 1:
             e, t = args[0]
             return (e, INT) if t == INT else (f"(roundHalfEven {e})", INT)
         if fname in ("math.floor", "np.floor", "da.floor") and len(args) == 1:
@@ -1207,6 +1238,32 @@ SPECS = [
          select=lambda fn: [fn.body[-1]],
          guard=lambda fn: _same(fn.body[-2], "alpha[alpha < 0] += 2 * np.pi") and _same(fn.body[-3], "alpha = new_lons_a - new_lons_b"),
          owners=["C17"]),
+    # ---- C09 (python-level interpolators of resample_blocks) -------------------------------------
+    dict(name="block_adjusted_indices", file="pyresample/gradient/__init__.py", func="_get_mask_and_adjusted_indices",
+         params=[("indices_xy", tup(NRAT, NRAT)), ("x_slice.start", INT), ("y_slice.start", INT)], returns=tup(BOOL, RAT, RAT),
+         select=lambda fn: [fn.body[1]] + list(fn.body[2].body[1:]) + list(fn.body[3:]),
+         guard=lambda fn: isinstance(fn.body[2], ast.If) and ast.unparse(fn.body[2].test) == "block_info" and not fn.body[2].orelse
+         and _same(fn.body[2].body[0], "y_slice, x_slice = block_info[0]['array-location'][-2:]"),
+         owners=["C09"]),
+    dict(name="block_nn_indices", file="pyresample/gradient/__init__.py", func="block_nn_interpolator", mode="fragment",
+         params=[("indices_xy", tup(NRAT, NRAT)), ("x_slice.start", INT), ("y_slice.start", INT), ("nrows", INT), ("ncols", INT)],
+         expr_params={"data.shape[-1]": "ncols", "data.shape[-2]": "nrows"},
+         outputs=["mask", "y_indices", "x_indices"], output_types={"mask": BOOL, "y_indices": INT, "x_indices": INT},
+         select=_from_stmt("mask, x_indices, y_indices = _get_mask_and_adjusted_indices(indices_xy, block_info)",
+                           upto="res = data[..., y_indices, x_indices]"),
+         post_guard=["res = data[..., y_indices, x_indices]", "return np.where(mask, fill_value, res)"],
+         inline={"_get_mask_and_adjusted_indices": dict(lean="block_adjusted_indices", args=[tup(NRAT, NRAT)], drop_args=1,
+                                                        implicit_after=["x_slice.start", "y_slice.start"], returns=tup(BOOL, RAT, RAT))},
+         owners=["C09"]),
+    dict(name="block_bilinear", file="pyresample/gradient/__init__.py", func="block_bilinear_interpolator",
+         params=[("indices_xy", tup(NRAT, NRAT)), ("x_slice.start", INT), ("y_slice.start", INT), ("nrows", INT), ("ncols", INT),
+                 ("d_ss", RAT), ("d_se", RAT), ("d_es", RAT), ("d_ee", RAT), ("fill_value", NRAT)],
+         expr_params={"data.shape[-1]": "ncols", "data.shape[-2]": "nrows", "data[..., l_start, p_start]": "d_ss",
+                      "data[..., l_start, p_end]": "d_se", "data[..., l_end, p_start]": "d_es", "data[..., l_end, p_end]": "d_ee"},
+         float_dtypes=["data.dtype"], returns=NRAT, select=_whole,
+         inline={"_get_mask_and_adjusted_indices": dict(lean="block_adjusted_indices", args=[tup(NRAT, NRAT)], drop_args=1,
+                                                        implicit_after=["x_slice.start", "y_slice.start"], returns=tup(BOOL, RAT, RAT))},
+         owners=["C09"]),
     # ---- C06 -----------------------------------------------------------------------------------
     dict(name="calc_abc", file="pyresample/bilinear/_base.py", func="_calc_abc",
          params=[("corner_points", tup(tup(RAT, RAT), tup(RAT, RAT), tup(RAT, RAT), tup(RAT, RAT))), ("out_y", RAT), ("out_x", RAT)],
